@@ -104,7 +104,7 @@ for k, v in P.items():
 # companion theorem modules (audited together with the main one)
 P["C13"]["extra_modules"] = ["Irc.Props.C13Codec"]
 P["C07"]["fn"] = ["banned"]
-P["C13"]["extra_modules"] = ["Irc.Props.C13Codec", "Irc.Props.Wire"]
+P["C13"]["extra_modules"] = ["Irc.Props.C13Codec", "Irc.Props.Wire", "Irc.Props.C13Hygiene"]
 P["C10"]["fn"] = ["banned"]
 P["C05"]["extra_modules"] = ["Irc.InvProofs.Step"]
 P["C06"]["extra_modules"] = ["Irc.InvProofs.Timer"]
